@@ -169,6 +169,9 @@ def ps_call(f, *args, **kw):
     except TypeError:
         m = None
     if m is not None:
+        if f is pow and args and _wrapped_sym(args[0]):
+            # pow(Integer, e, m) dispatches to the wrapper's own __pow__ (which returns a wrapper), as in CPython
+            return f(*args, **kw)
         return m(*[_unwrap(a) for a in args], **kw)
     tf = type(f)
     if tf is _BUILTIN_METHOD:
